@@ -433,6 +433,105 @@ func entry() uint64 {
 	return r + a - a
 }
 `, v1))
+	// a lock-yield spin wait: release and re-acquire until the other thread has set the flag
+	add("lock-yield-spin", true, hdr+fmt.Sprintf(`func entry() uint64 {
+	m := new(sync.Mutex)
+	ready := new(bool)
+	data := new(uint64)
+	go func() {
+		m.Lock()
+		*data = %d
+		*ready = true
+		m.Unlock()
+	}()
+	m.Lock()
+	for !*ready {
+		m.Unlock()
+		m.Lock()
+	}
+	r := *data
+	m.Unlock()
+	return r
+}
+`, v1+40))
+	// two critical sections back to back: another thread may run in the gap (schedule dependent)
+	add("two-sections-gap", false, hdr+`func entry() uint64 {
+	m := new(sync.Mutex)
+	x := new(uint64)
+	wg := new(sync.WaitGroup)
+	wg.Add(1)
+	go func() {
+		m.Lock()
+		*x = *x * 10
+		m.Unlock()
+		wg.Done()
+	}()
+	m.Lock()
+	*x = *x + 1
+	m.Unlock()
+	m.Lock()
+	*x = *x + 2
+	m.Unlock()
+	wg.Wait()
+	m.Lock()
+	r := *x
+	m.Unlock()
+	return r
+}
+`)
+	// a goroutine changes the loop variable it captured, joined before the iteration ends
+	add("loopvar-goroutine-modifies", true, hdr+`func entry() uint64 {
+	var sum uint64 = 0
+	for i := uint64(0); i < 5; i++ {
+		wg := new(sync.WaitGroup)
+		wg.Add(1)
+		go func() {
+			if i == 2 {
+				i = i + 1
+			}
+			wg.Done()
+		}()
+		wg.Wait()
+		sum = sum + i
+	}
+	return sum
+}
+`)
+	// readers that must overlap: both hold the read lock while they wait for each other
+	bnd("b-rwmutex-rendezvous", true, hdr+`func reader(rw *sync.RWMutex, m *sync.Mutex, cnt *uint64, wg *sync.WaitGroup) {
+	rw.RLock()
+	m.Lock()
+	*cnt = *cnt + 1
+	m.Unlock()
+	m.Lock()
+	for *cnt < 2 {
+		m.Unlock()
+		m.Lock()
+	}
+	m.Unlock()
+	rw.RUnlock()
+	wg.Done()
+}
+
+func entry() uint64 {
+	rw := new(sync.RWMutex)
+	m := new(sync.Mutex)
+	cnt := new(uint64)
+	wg := new(sync.WaitGroup)
+	wg.Add(2)
+	go func() {
+		reader(rw, m, cnt, wg)
+	}()
+	go func() {
+		reader(rw, m, cnt, wg)
+	}()
+	wg.Wait()
+	m.Lock()
+	r := *cnt
+	m.Unlock()
+	return r
+}
+`)
 	// two waiters, one Signal each
 	add("cond-signal-each", true, hdr+fmt.Sprintf(`func waiter(m *sync.Mutex, c *sync.Cond, tokens *uint64, sum *uint64, v uint64, wg *sync.WaitGroup) {
 	m.Lock()
